@@ -24,7 +24,7 @@ class CannotFold(Exception):
 CMP = {ast.Eq: operator.eq, ast.NotEq: operator.ne, ast.Lt: operator.lt, ast.LtE: operator.le, ast.Gt: operator.gt,
        ast.GtE: operator.ge, ast.Is: operator.is_, ast.IsNot: operator.is_not, ast.In: lambda a, b: a in b,
        ast.NotIn: lambda a, b: a not in b}
-BIN = {ast.Add: operator.add, ast.Sub: operator.sub, ast.Mult: operator.mul, ast.Div: operator.truediv,
+BIN = {ast.LShift: operator.lshift, ast.RShift: operator.rshift, ast.BitAnd: operator.and_, ast.BitOr: operator.or_, ast.BitXor: operator.xor, ast.Add: operator.add, ast.Sub: operator.sub, ast.Mult: operator.mul, ast.Div: operator.truediv,
        ast.FloorDiv: operator.floordiv, ast.Mod: operator.mod, ast.Pow: operator.pow}
 
 
@@ -37,6 +37,8 @@ def fold(n, env):
         raise CannotFold(n.id)
     if isinstance(n, ast.Attribute):
         v = fold(n.value, env)
+        if isinstance(v, str) and n.attr in ("format", "join", "zfill", "rjust"):
+            return getattr(v, n.attr)
         if isinstance(v, Stub) and n.attr in v.__dict__:
             return v.__dict__[n.attr]
         if isinstance(v, slice) and n.attr in ("start", "stop", "step"):
@@ -87,4 +89,37 @@ def fold(n, env):
         raise CannotFold(ast.unparse(n))
     if isinstance(n, ast.Subscript) and not isinstance(n.slice, ast.Slice):
         return fold(n.value, env)[fold(n.slice, env)]
+    if isinstance(n, ast.Subscript):
+        sl = n.slice
+        v = fold(n.value, env)
+        if isinstance(v, (tuple, list, str)):
+            return v[slice(*(None if x is None else fold(x, env) for x in (sl.lower, sl.upper, sl.step)))]
+        raise CannotFold(ast.unparse(n))
+    if isinstance(n, (ast.GeneratorExp, ast.ListComp)):
+        def rec(gens, env):
+            if not gens:
+                yield fold(n.elt, env)
+                return
+            g = gens[0]
+            if g.is_async:
+                raise CannotFold("async comprehension")
+            for x in fold(g.iter, env):
+                e2 = dict(env)
+                bind(g.target, x, e2)
+                if all(fold(c, e2) for c in g.ifs):
+                    yield from rec(gens[1:], e2)
+        return list(rec(n.generators, env))
     raise CannotFold(type(n).__name__)
+
+
+def bind(target, value, env):
+    if isinstance(target, ast.Name):
+        env[target.id] = value
+    elif isinstance(target, (ast.Tuple, ast.List)) and not any(isinstance(e, ast.Starred) for e in target.elts):
+        value = list(value)
+        if len(value) != len(target.elts):
+            raise ValueError("unpacking")
+        for t, v in zip(target.elts, value):
+            bind(t, v, env)
+    else:
+        raise CannotFold(ast.unparse(target))
